@@ -190,7 +190,7 @@ Resolves(doc) ==
 CONSTANTS
     MaxSpecies,     \* 1..MaxSpecies species s1, s2, s3
     MaxRxn,         \* 1..MaxRxn reactions
-    Features,       \* optional parts a skeleton may have: subset of {"rule", "iap", "ias", "fun", "two"}
+    Features,       \* optional parts a skeleton may have: subset of {"rule", "iap", "ias", "fun", "two", "rrule"}
     NumLits, Half,
     UnOn, BinOn, CmpOn, BoolOn, IteOn, FnOn, CallOn, PiOn,
     MaxDepth, MaxToks,
@@ -220,11 +220,17 @@ SpInit == <<RFromInt(3), RFromInt(1), R(5, 2)>>
 SpName == <<"s1", "s2", "s3">>
 
 \* slots that need an expression, in filling order (no forward references between them)
-SlotSeq(nr, withRule, withIaP, withIaS) ==
+SlotSeq(nr, withRule, withIaP, withIaS, withRRule) ==
     (IF withIaP THEN <<[kind |-> "iap", name |-> "kia"]>> ELSE <<>>)
     \o (IF withIaS THEN <<[kind |-> "ias", name |-> "s1"]>> ELSE <<>>)
     \o (IF withRule THEN <<[kind |-> "rule", name |-> "v"]>> ELSE <<>>)
     \o [j \in 1..nr |-> [kind |-> "rxn", name |-> <<"r1", "r2", "r3">>[j]]]
+    \* a rule whose only non-constant arguments are REACTION ids (w = 1 / (1 + k2 * r1) ...): it follows the state through
+    \* the rate, although it names no species and no time
+    \o (IF withRRule THEN <<[kind |-> "rrule", name |-> "w"]>> ELSE <<>>)
+
+RRuleMenu == {Bin("div", Num(1), Bin("add", Num(1), Bin("mul", Var("k2"), Var("r1")))),
+              Bin("sub", Bin("mul", Var("k1"), Var("r1")), Num(1))}
 
 Opt(f) == IF f \in Features THEN BOOLEAN ELSE {FALSE}
 Open(t, d) == [t |-> t, d |-> d]
@@ -232,19 +238,20 @@ Fresh == <<Open("num", MaxDepth)>>
 
 Init ==
     /\ \E n \in 1..MaxSpecies, nr \in 1..MaxRxn, withRule \in Opt("rule"), withIaP \in Opt("iap"), withIaS \in Opt("ias"),
-          withFun \in Opt("fun"), size1 \in CompSizes, two \in Opt("two") :
+          withFun \in Opt("fun"), size1 \in CompSizes, two \in Opt("two"), withRRule \in Opt("rrule") :
           \E fl \in SpeciesMenu(n) :
              /\ doc = [comps |-> IF two THEN [c \in {"c1", "c2"} |-> [size |-> IF c = "c1" THEN size1 ELSE RFromInt(2)]]
                                  ELSE [c \in {"c1"} |-> [size |-> size1]],
                        species |-> [j \in 1..n |->
                                       [id |-> SpName[j], comp |-> IF two /\ j = 2 THEN "c2" ELSE "c1", init |-> SpInit[j],
                                        boundary |-> fl[j] # "dyn", constant |-> fl[j] = "const"]],
-                       pars |-> [p \in {"k1", "k2"} \cup (IF withRule THEN {"v"} ELSE {}) \cup (IF withIaP THEN {"kia"} ELSE {}) |->
+                       pars |-> [p \in {"k1", "k2"} \cup (IF withRule THEN {"v"} ELSE {}) \cup (IF withIaP THEN {"kia"} ELSE {})
+                                       \cup (IF withRRule THEN {"w"} ELSE {}) |->
                                    [v |-> IF p = "k1" THEN RFromInt(3) ELSE IF p = "k2" THEN R(1, 2) ELSE Zero,
-                                    constant |-> p # "v"]],
+                                    constant |-> p \notin {"v", "w"}]],
                        fundefs |-> IF withFun THEN [f \in {"f"} |-> CHOOSE x \in FunMenu : TRUE] ELSE Empty,
                        rules |-> Empty, ias |-> Empty, rxns |-> Empty]
-             /\ slots = SlotSeq(nr, withRule, withIaP, withIaS)
+             /\ slots = SlotSeq(nr, withRule, withIaP, withIaS, withRRule)
     /\ i = 1
     /\ toks = <<>>
     /\ todo = Fresh
@@ -294,7 +301,7 @@ PickFun ==
     /\ UNCHANGED <<slots, i, toks, todo, scheme>>
 
 Expand ==
-    /\ ~Done /\ todo # <<>>
+    /\ ~Done /\ todo # <<>> /\ slots[i].kind # "rrule"
     /\ \E tk \in Prods(todo[1]) :
           LET td == Children(tk, todo[1]) \o Tail(todo) IN
           /\ Len(toks) + 1 + NeedAll(td) <= MaxToks
@@ -364,7 +371,15 @@ Twin ==
     /\ doc' = [doc EXCEPT !.rxns["r1"].kl = Bin("mul", Num(2), @)]
     /\ UNCHANGED <<slots, i, toks, todo, scheme>>
 
-Next == PickFun \/ Expand \/ Commit \/ Twin
+CommitRRule ==
+    /\ ~Done /\ slots[i].kind = "rrule" /\ toks = <<>>
+    /\ \E e \in RRuleMenu : doc' = [doc EXCEPT !.rules = @ @@ (slots[i].name :> e)]
+    /\ i' = i + 1
+    /\ toks' = <<>>
+    /\ todo' = IF i + 1 <= Len(slots) THEN Fresh ELSE <<>>
+    /\ UNCHANGED <<slots, scheme>>
+
+Next == PickFun \/ Expand \/ Commit \/ CommitRRule \/ Twin
 Spec == Init /\ [][Next]_vars
 
 \* ---- identifier schemes -------------------------------------------------------------------------------
@@ -384,7 +399,7 @@ IdMap(s) ==
       \* ids that are the names the importer GENERATES for its helper functions (init_<symbol>,
       \* <reaction>_stoich_<species>) or that the generated module uses itself
       [] s = "helper"  -> [v |-> "init_kia", r2 |-> "r1_stoich_s1", k2 |-> "init_s1", sr |-> "r1_stoich_s2"]
-      [] s = "modnames" -> [v |-> "create_model", r2 |-> "Model", k1 |-> "Derived", sr |-> "InitialAssignment", sq |-> "scipy"]
+      [] s = "modnames" -> [v |-> "create_model", r2 |-> "Model", r1 |-> "Model_", w |-> "math_", k1 |-> "Derived", sr |-> "InitialAssignment", sq |-> "scipy"]
 AllSchemes == {"plain", "sympy", "keyword", "kwcomp", "under", "ucomp", "caps", "amount", "math", "formal", "helper", "modnames"}
 
 Nm(n) == IF n \in DOMAIN IdMap(scheme) THEN IdMap(scheme)[n] ELSE n
